@@ -935,6 +935,23 @@ package engine
 //@   property C03
 //@   nosafety
 //@   at-call cut requires[cuts-to-own-call] a0 == p
+//@   bind cnt, cerr = addI#1
+//@   bind u = Unify#1
+//@   bind re = representationError#1
+//@   bind ee = Error#1
+//@   bind ct = cut#1
+//@   at-call addI requires[each-answer-of-the-goal-counts-one] a0 == n && a1 == 1
+//@   at-call representationError requires[a-count-beyond-the-largest-integer-is-a-representation-error-max-integer-in-the-caller-s-environment] cerr != nil && a0 == flagMaxInteger && a1 == parentEnv
+//@   at-call Error requires[that-error-is-what-is-raised] called(re) && a0 == re
+//@   ensures[a-count-that-overflows-raises] cerr != nil ==> called(ee) && result == ee && !called(u)
+//@   at-call Unify requires[the-number-of-this-answer-is-unified-with-the-count-given] cerr == nil &&
+//@       ((a1 is Integer && (a1 as Integer) == cnt && a2 == nth) || (a2 is Integer && (a2 as Integer) == cnt && a1 == nth))
+//@   at-call Unify requires[under-the-bindings-of-this-answer-and-then-the-caller-goes-on] a0 == vm && a3 == k && a4 == param(0)
+//@   at-call Unify requires[the-counter-keeps-the-number-of-answers-so-far] n == cnt
+//@   at-call cut requires[no-more-answers-are-sought-only-when-the-count-given-is-an-integer-that-has-been-reached] cerr == nil && called(u) && nth is Integer && (nth as Integer) <= n
+//@   at-call cut requires[what-runs-after-the-cut-is-made-here] fresh(a1)
+//@   ensures[a-count-that-has-been-reached-cuts-the-remaining-answers-of-the-goal] cerr == nil && nth is Integer && (nth as Integer) <= n ==> called(ct) && result == ct
+//@   ensures[otherwise-the-goal-may-be-retried-the-result-is-the-unification-s] cerr == nil && !(nth is Integer && (nth as Integer) <= n) ==> called(u) && result == u
 
 //@ ---------------------------------------------------------------- operator table (C18)
 
@@ -1953,8 +1970,23 @@ package engine
 //@   onk[continues-under-the-bindings-of-the-unification] kenv == param(0)
 
 //@ func piArg
-//@   trusted
+//@   property C03
+//@   nosafety
 //@   modifies nothing
+//@   let r = resolve(env, t)
+//@   bind ie = InstantiationError#1
+//@   bind te = typeError#1
+//@   at-call (*Env).Resolve requires[the-term-is-inspected-under-the-bindings-given] a0 == env && a1 == t
+//@   at-call InstantiationError requires[only-a-variable-is-an-instantiation-error] r is Variable && a0 == env
+//@   at-call typeError requires[anything-that-is-neither-atom-nor-compound-is-a-type-error-callable-with-the-term-as-culprit] !(r is Variable) && !(r is Atom) && !(r is Compound) &&
+//@       a0 == validTypeCallable && a1 == r && a2 == env
+//@   ensures[a-variable-is-an-instantiation-error] r is Variable ==> called(ie) && result2 == ie
+//@   ensures[a-variable-is-an-error] r is Variable ==> result2 != nil
+//@   ensures[an-atom-names-a-predicate-without-arguments] r is Atom ==> result2 == nil && result0.name == (r as Atom) && result0.arity == 0
+//@   ensures[a-compound-names-the-predicate-of-its-functor-and-arity] r is Compound ==> result2 == nil && result0.name == Compound.Functor(r as Compound) && result0.arity == Compound.Arity(r as Compound)
+//@   ensures[anything-else-is-a-type-error] !(r is Variable) && !(r is Atom) && !(r is Compound) ==> called(te) && result2 == te
+//@   ensures[anything-else-is-an-error] !(r is Variable) && !(r is Atom) && !(r is Compound) ==> result2 != nil
+//@   ensures[that-type-error-is-callable-expected-with-the-term-as-culprit] !(r is Variable) && !(r is Atom) && !(r is Compound) ==> isTypeErr(result2, validTypeCallable, r)
 
 //@ func Assertz$1
 //@   property C09
